@@ -261,7 +261,8 @@ impl ChildLimit {
     if forward {
       term = term.next(2);
     }
-    let info: ChildLimitInfo = CHILD_LIMIT_PROVIDER.lock().unwrap().get_info(birth_time, term);
+    // 某次计算失败(例如节令超出范围)会使锁中毒，后续合法请求不应受影响
+    let info: ChildLimitInfo = CHILD_LIMIT_PROVIDER.lock().unwrap_or_else(|e| e.into_inner()).get_info(birth_time, term);
 
     Self {
       eight_char,
